@@ -67,12 +67,13 @@ theorem Ty.units (t : Ty) : t.isZC = true → t.wf = true → IsP2 t.alignOf ∧
   | .rangeFull => fun _ _ => by simp only [Ty.alignOf, Ty.maxSizeOf]; exact ⟨IsP2.one, IsP2.one, Nat.le_refl _⟩
   | .adt m vs => fun hz hw => by
       simp only [Ty.isZC, Bool.and_eq_true] at hz
-      simp only [Ty.wf, Bool.and_eq_true, hz.1, if_true, Bool.not_eq_true'] at hw
-      have hne : m.isEnum = false := hw.1.2.1
+      simp only [Ty.wf, Bool.and_eq_true, hz.1, if_true] at hw
       have hv := Variants.units vs hz.2 hw.1.1.1.2
       have ha : IsP2 (Ty.alignOf (.adt m vs)) := by
-        simp only [Ty.alignOf, hne, Bool.false_eq_true, if_false]
-        exact IsP2.max (pow2b_spec hw.1.1.1.1) hv.1
+        simp only [Ty.alignOf]
+        split
+        · exact IsP2.max (IsP2.max (pow2b_spec hw.1.1.1.1) ⟨2, by omega, rfl⟩) hv.1
+        · exact IsP2.max (pow2b_spec hw.1.1.1.1) hv.1
       refine ⟨ha, ?_, ?_⟩
       · simp only [Ty.maxSizeOf]
         exact IsP2.max0 ha hv.2
